@@ -757,6 +757,16 @@ fn pwl_points(rng: &mut Rng, t: &Tables, lb: u64, npts: usize) -> (Vec<i64>, usi
         v.push(rng.range(t.left_fp - 4 * div, t.left_fp - 1));
         v.push(rng.range(right + 1, right + 4 * div));
     }
+    // the documented continuation outside the segment: several segment widths away on both sides
+    let w = nseg * div;
+    for k in 0..12i64 {
+        v.push(rng.range(right + 1 + (k % 6) * w / 2, right + (k % 6 + 1) * w / 2));
+        v.push(rng.range(t.left_fp - (k % 6 + 1) * w / 2, t.left_fp - 1 - (k % 6) * w / 2));
+    }
+    for k in [8i64, 21, 50] {
+        v.push(right + k * w + rng.range(0, w));
+        v.push(t.left_fp - k * w - rng.range(0, w));
+    }
     (v, ndom)
 }
 
@@ -863,6 +873,42 @@ fn run_pwl(tier: &str, rng: &mut Rng, out: &mut Out, worst: &mut std::collection
                 }
             }
         }
+        // oracle on the documented continuation outside the segment (approx_pointwise.rs: constant
+        // where flattened, the outermost line otherwise), up to 64 segment widths away: sigmoid is
+        // flattened on both sides, GeLU on the left (and continues with slope ~1 on the right),
+        // the exponent on the left
+        let (lreal, rreal) = (left as f64, right as f64);
+        let width = rreal - lreal;
+        for i in ndom..pts.len() {
+            let x = pts[i] as f64 / one;
+            if x < lreal - 64.0 * width || x > rreal + 64.0 * width { continue; }
+            // the line alpha * x + beta is evaluated in 64-bit words: inputs on which that product
+            // leaves the word (high precisions, far inputs) are outside what the format can carry
+            let amax = t.alphas.iter().map(|a| a.unsigned_abs()).max().unwrap_or(0) as f64;
+            let bmax = t.betas.iter().map(|b| b.unsigned_abs()).max().unwrap_or(0) as f64;
+            if (pts[i] as f64).abs() * amax + bmax >= 4.0e18 { out.stat("pwl-outside-segment-skipped-word-overflow"); continue; }
+            let got = res[i] as u64 as i64;
+            let exact = kind.f64(x);
+            let base_tol = (if lb >= 5 { 0.01 } else { 0.01 * (1u64 << (2 * (5 - lb))) as f64 }) + 2.0 / one;
+            let verdict: Option<(f64, f64)> = match kind {
+                Pwl::Sigmoid => Some(((got as f64 / one - exact).abs(), base_tol)),
+                Pwl::Gelu if x < lreal => Some(((got as f64 / one - exact).abs(), base_tol)),
+                // right of the segment: the secant through the last two control points (4 and
+                // 4 + 8/2^lb), whose slope differs from 1 by less than 1e-3, rounded to 2^-p
+                Pwl::Gelu => Some(((got as f64 / one - exact).abs(), base_tol + (1e-3 + 2.0 / one) * x.abs())),
+                Pwl::Exp if x < lreal => Some(((got as f64 - exact * one).abs() - 0.05 * exact * one, 2.0)),
+                Pwl::Exp => None,
+            };
+            if let Some((err, tol)) = verdict {
+                out.stat("pwl-outside-segment-oracle");
+                if err > tol {
+                    out.violation(&format!("approx-{}-continuation-tolerance", kind.name()),
+                        json!({"op":kind.name(),"precision":p,"log_buckets":lb,"x":pts[i]}), format!("outside the segment: got {} exact {:.4} err {:.5} > {:.5}", got, exact * one, err, tol));
+                } else {
+                    out.oracle_ok();
+                }
+            }
+        }
     }
 }
 
@@ -895,18 +941,35 @@ fn run_compiled_smoke(out: &mut Out) {
             let inst = run_instantiation_pass(c)?.get_context();
             let inl = inline_operations(&inst, cfg.clone())?.get_context();
             let comp = prepare_for_mpc_evaluation(&inl, vec![vec![IOStatus::Party(0)]], vec![vec![IOStatus::Party(0)]], cfg)?.get_context();
-            let r = random_evaluate(comp.get_main_graph()?, vec![Value::from_flattened_array(&w2, st)?])?;
-            r.to_flattened_array_u128(t.clone())
+            // fixed PRNG seeds: the check is deterministic
+            let mut rs = vec![];
+            for sd in 0..6u8 {
+                let r = ciphercore_base::evaluators::evaluate_simple_evaluator(comp.get_main_graph()?, vec![Value::from_flattened_array(&w2, st)?], Some([sd.wrapping_mul(37).wrapping_add(1); 16]))?;
+                rs.push(r.to_flattened_array_u128(t.clone())?);
+            }
+            Ok(rs)
         }));
         out.stat(&format!("compiled-smoke {}:{}", name, compiled.tag()));
         match (plain, compiled) {
-            (Outcome::Ok((p, _)), Outcome::Ok(c)) => {
-                for i in 0..p.len() {
-                    let (a, b) = (p[i] as u64 as i64, c[i] as u64 as i64);
-                    if (a - b).abs() > tol {
-                        out.violation("compiled-vs-plaintext", json!({"op":name,"x":xs[i]}), format!("plaintext {} compiled {} (allowed truncation error {})", a, b, tol));
-                    } else {
-                        out.oracle_ok();
+            (Outcome::Ok((p, pctx)), Outcome::Ok(cs)) => {
+                // The secure truncation that selects the bucket of a piecewise-linear operation
+                // returns floor or floor + 1 (ABY3 probabilistic truncation, property C05), so the
+                // neighbouring segment's line may be evaluated: the propagated truncation error
+                // is at most max_i |alpha[i+1] - alpha[i]| * divisor / 2^p units.
+                let tol = if name.starts_with("ApproxSigmoid") {
+                    match extract_tables(&pctx) {
+                        Some(tb) => { let d = tb.alphas.windows(2).map(|w| (w[1] - w[0]).abs()).max().unwrap_or(0) as i128; tol + ((d * tb.divisor as i128) >> 10) as i64 + 1 }
+                        None => tol,
+                    }
+                } else { tol };
+                for c in cs.iter() {
+                    for i in 0..p.len() {
+                        let (a, b) = (p[i] as u64 as i64, c[i] as u64 as i64);
+                        if (a - b).abs() > tol {
+                            out.violation("compiled-vs-plaintext", json!({"op":name,"x":xs[i]}), format!("plaintext {} compiled {} (allowed truncation error {})", a, b, tol));
+                        } else {
+                            out.oracle_ok();
+                        }
                     }
                 }
             }
